@@ -105,12 +105,11 @@ func (parseResult *ParseResult) Attribute(name string) (Attribute, bool) {
 
 // TextForAttribute returns the part of the parsed line of text that is covered by the given attribute.
 func (parseResult *ParseResult) TextForAttribute(attribute Attribute) string {
-	if attribute.Length == 0 {
-		return ""
-	}
-	if len(parseResult.Text) < attribute.Position+attribute.Length {
-		panic("attribute represents a range not representable by this text")
+	runes := []rune(parseResult.Text)
+	start, end := attribute.Position, attribute.Position+attribute.Length
+	if start < 0 || end < start || end > len(runes) {
+		return "" // the attribute represents a range not representable by this text
 	}
 
-	return string([]rune(parseResult.Text)[attribute.Position : attribute.Position+attribute.Length])
+	return string(runes[start:end])
 }
